@@ -62,11 +62,13 @@ struct sba_page_model {
     struct page_header hdr;
     uint8_t body[AWS_SBA_PAGE_SIZE - sizeof(struct page_header)];
 };
-struct sba_page_model *g_pt[SBA_MAXP];
+uint8_t *g_pt[SBA_MAXP];
 bool g_pt_alive[SBA_MAXP];
-#define SBA_H(i) (&g_pt[(i)]->hdr)
-static inline struct sba_page_model *sba_model_new_page(void) {
-    struct sba_page_model *p = malloc(sizeof(struct sba_page_model)); /* arbitrary contents */
+#define SBA_H(i) ((struct page_header *)g_pt[(i)])
+static inline uint8_t *sba_model_new_page(void) {
+    size_t n = nondet_size_t();
+    __CPROVER_assume(n <= SBA_PAGE && n >= SBA_PAGE);
+    uint8_t *p = malloc(n); /* arbitrary contents */
     __CPROVER_assume(p != NULL);
     return p;
 }
